@@ -39,6 +39,24 @@ NEEDS = {
  "C18a": ("padding generator slots get factor 1 instead of u in prover and verifier", "gate count not a power of two; recorded proofs stop verifying"),
  "C18b": ("party index in the generator-chain label written big-endian", "party index >= 1 (multi-party tables)"),
 }
+NEEDS.update({
+ "C01c": ("S2 built on gens.G(n2)/H(n2) instead of G(n).skip(n1)/H(n).skip(n1)", "gates in both phases (n1 > 0 and n2 > 0)"),
+ "C01d": ("verifier feeds A_I2/A_O2/S2 through the identity-rejecting append when a randomized closure is registered", "closure that adds only linear constraints (prover sends identity points)"),
+ "C02c": ("create_randomized_constraints runs only the first deferred callback (if let Some(..) = drain.next()) on both roles", "two or more randomized callbacks, violation outside the first"),
+ "C02d": ("constrain() skips 'vacuous' constraints, is_vacuous implemented with any() instead of all()", "violated constraint containing a zero coefficient"),
+ "C03c": ("identity check on the encoding (all-zero bytes) instead of the point: never fires in arkworks", "crafted proof with an identity mandatory point"),
+ "C03d": ("constraint weights start at z^0 instead of z^1 in both flattenings (zip(exp_iter(z)) without skip(1))", "first constraint and first gate violated by opposite amounts; or spec-conforming proof"),
+ "C06c": ("A_I1/A_O1/S1 absorbed after the randomized phase on both roles", "2-phase circuit whose randomized constraints refer to phase-1 wires"),
+ "C06d": ("verifier squeezes the batching weight r from the live transcript instead of a clone", "returned transcripts compared / sequential composition on one transcript"),
+ "C07c": ("batch weights squeezed from each instance's transcript clone keyed with one batch-wide value", "two proofs differing only in the final scalars a, b (not absorbed): weights collide"),
+ "C07d": ("batch width measured before verification_scalars runs the randomized phase", "widest member gets gates in the randomized phase across a power of two"),
+ "C08c": ("verifier capacity guard compares gens_capacity with the unpadded gate count n", "n <= capacity < padded_n: msm(..).unwrap() panics"),
+ "C08d": ("from_bytes pre-reads the L_vec length with read_u64 guarded only by slice.len() < head_len", "input length in [head_len, head_len + 8)"),
+ "C09c": ("s_L/s_R from a bulk sampler using from_random_bytes(..).unwrap_or_default()", "scalar field ~2^252 (curve25519/ed25519): about half the masks become 0"),
+ "C09d": ("masking vectors expanded with ChaCha20 from one mask_key; phase 2 reuses key and streams of phase 1", "multipliers in both phases: s_L2 == s_L1, s_R2 == s_R1"),
+ "C10c": ("first round drops cross-term contributions from the first zero of a onward (treated as padding)", "vector a with a zero followed by a non-zero entry"),
+ "C10d": ("shape guards merged into lg_n >= 32 || n > (1 << lg_n)", "proof with surplus rounds for the claimed length"),
+})
 sid = sys.argv[1]
 src = f"/tmp/seed_out/{sid}"
 dst = f"/verif/seeded/{sid}"
